@@ -34,8 +34,8 @@ type XExpr struct {
 
 // XRule is one alternative of a nonterminal.
 type XRule struct {
-	Body  *XExpr // XSeq (possibly empty)
-	Arrow string // rule-level "-> Name" ("" = use the nonterminal's default)
+	Body   *XExpr // XSeq (possibly empty)
+	Arrow  string // rule-level "-> Name" ("" = use the nonterminal's default)
 	Action string // end-of-rule semantic action (does not change the language or the events)
 }
 
@@ -142,18 +142,18 @@ func (g *XGrammar) nullableExpr(e *XExpr) bool {
 
 // XGenOptions tunes RandXGrammar.
 type XGenOptions struct {
-	FixWS     bool
-	NoArrows  bool
-	MaxNT     int
+	FixWS         bool
+	NoArrows      bool
+	MaxNT         int
 	ErrorRecovery bool
 }
 
 type xgen struct {
-	r     *rand.Rand
-	g     *XGrammar
-	nT    int
-	types int
-	opt   XGenOptions
+	r       *rand.Rand
+	g       *XGrammar
+	nT      int
+	types   int
+	opt     XGenOptions
 	emptyNT []bool
 	lists   []*XExpr
 	twins   int
